@@ -225,6 +225,17 @@ func runSweep(repo string, only string, workers int) int {
 		fired   []string
 	}
 	results := make([]res, len(ms))
+	if dir := os.Getenv("GOPKICHECK_SWEEP_DUMP"); dir != "" {
+		// exploration aid: write every mutant's source (no analysis), so that the surviving ones can be run against the
+		// repository's own test suite
+		os.MkdirAll(dir, 0o755)
+		for i, m := range ms {
+			os.WriteFile(filepath.Join(dir, fmt.Sprintf("%05d.go", i)), m.Src, 0o644)
+			os.WriteFile(filepath.Join(dir, fmt.Sprintf("%05d.txt", i)), []byte(fmt.Sprintf("%s:%d %s %s\n", m.File, m.Line, m.Op, m.Desc)), 0o644)
+		}
+		fmt.Println("dumped", len(ms), "mutants to", dir)
+		return 0
+	}
 	var wg sync.WaitGroup
 	sem := make(chan struct{}, workers)
 	for i, m := range ms {
